@@ -82,6 +82,23 @@ def r7_1(ctx: Ctx) -> None:
                "no path from the match edge back to the loop head" if not cont else "the scan continues after a match (a later rule can override the first)")
     # the deciding rule is recorded on the match edge
     rets = [n for n in g.nodes if n.kind == "stmt" and isinstance(n.ast, ast.Return)]
+    # a return that cannot be reached from the scan loop answers without looking at the list: its verdict must be the implicit
+    # action's.  A constant verdict on a path that never tests the implicit action is wrong for one of the two implicit actions.
+    early = [r for r in rets if g.path_avoiding([r], lambda e: False, start=loop) is None]
+    for r in early:
+        val = r.ast.value
+        if not (isinstance(val, ast.Tuple) and len(val.elts) == 2):
+            raise AnalysisError("R7.1: an early return of is_permitted is not a `(verdict, rule)` pair")
+        tbl = [(ia, Evaluator({"self.implicit_action": ia, "ACLAction.PERMIT": "PERMIT", "ACLAction.DENY": "DENY"}, ld).ev(val.elts[0]))
+               for ia in ("PERMIT", "DENY")]
+        tied = all(x is not UNKNOWN and bool(x) == (ia == "PERMIT") for ia, x in tbl)
+        tests_ia = g.path_avoiding([r], lambda e: bool(e.label and e.label[0] == "cond" and "implicit_action" in unparse(e.label[1]))) is None
+        if not tied and not tests_ia and not isinstance(val.elts[0], ast.Constant):
+            raise AnalysisError(f"R7.1: early return with a verdict `{unparse(val.elts[0])[:40]}` that cannot be evaluated")
+        ctx.record("R7.1", ctx.key(fn, "a verdict given without scanning the list is the implicit action's"), fn.loc(r.ast), tied or tests_ia,
+                   f"returns {unparse(val)[:60]}; by implicit action {tbl}" + ("" if tied or tests_ia else
+                   " - the list's implicit action is not consulted: a list whose implicit action is the other one gets the wrong verdict"))
+    rets = [r for r in rets if r not in early]
     if len(rets) != 1 or not isinstance(rets[0].ast.value, ast.Tuple) or len(rets[0].ast.value.elts) != 2:
         raise AnalysisError("R7.1: is_permitted does not end in a single `return permitted, rule`")
     rp, rr = (unparse(e) for e in rets[0].ast.value.elts)
@@ -129,7 +146,16 @@ def r7_1(ctx: Ctx) -> None:
     ctx.record("R7.1", ctx.key(fn, "no deciding rule before the scan"), fn.loc(), bool(init_none), f"`{rr}` starts as None")
     incs = [n for n in g.nodes if n.kind == "stmt" and isinstance(n.ast, ast.AugAssign) and unparse(n.ast.target).endswith("match_count")]
     lo, hi = g.count_range(lambda n: n in incs)
-    ok_inc = (lo, hi) == (1, 1) and all(unparse(n.ast.target) == f"{rr}.match_count" and isinstance(n.ast.op, ast.Add)
+
+    def counts_the_returned_rule(n: CNode) -> bool:
+        recv = unparse(n.ast.target.value)
+        if recv == rr:
+            return True
+        # an increment on a path that ends in an early return: the rule counted must be the rule that return hands back
+        reached = [r for r in early + rets if g.path_avoiding([r], lambda e: False, start=n) is not None]
+        return bool(reached) and all(r in early and unparse(r.ast.value.elts[1]) == recv for r in reached)
+
+    ok_inc = (lo, hi) == (1, 1) and all(counts_the_returned_rule(n) and isinstance(n.ast.op, ast.Add)
                                         and isinstance(n.ast.value, ast.Constant) and n.ast.value.value == 1 for n in incs)
     ctx.record("R7.1", ctx.key(fn, "match_count += 1 exactly once on the deciding rule"), fn.loc(), ok_inc,
                f"{[unparse(n.ast) for n in incs]} executed {lo}..{hi} times per verdict")
